@@ -12,10 +12,14 @@ Init == /\ i = 1
 Next ==
   /\ i <= Len(Trace)
   /\ i' = i + 1
-  /\ \E c \in {Trace[i]} : \E R \in {IF c.fam = "storestress" THEN [firstbad |-> 0] ELSE P!Replay(c.h)} :
-       \E x \in {IF c.fam = "storestress" THEN [k \in HitKeys |-> FALSE] ELSE P!StoreHits(c.cfg, c.h)} :
+  /\ \E c \in {Trace[i]} : \E R \in {IF c.fam \in {"storestress", "storeagg"} THEN [firstbad |-> 0] ELSE P!Replay(c.h)} :
+       \E x \in {IF c.fam \in {"storestress", "storeagg"} THEN [k \in HitKeys |-> FALSE] ELSE P!StoreHits(c.cfg, c.h)} :
        \E bad \in {IF c.fam = "storestress"
                       THEN (IF P!QuiesceOK(c.h[1]) THEN {} ELSE {"quiescentConsistency"})
+                      ELSE IF c.fam = "storeagg"
+                      \* reads of the aggregate views while one writer alternates Merge(16 keys, one generation) and Clear:
+                      \* an atomic read returns nothing or all 16 keys of one generation
+                      THEN (IF \A k \in 1..Len(c.h) : (c.h[k].n \in {0, 16} /\ c.h[k].gens <= 1) THEN {} ELSE {"aggregateAtomic"})
                       ELSE IF c.fam = "storeowner"
                       \* the log of the only writer of a set of keys, recorded while other goroutines churn the store:
                       \* linearizability makes it a correct sequential history of the map
